@@ -480,6 +480,9 @@ def getattr_(I: Interp, o, name: str):
         key = f"{o.name}.{name}"
         if key in I.intrinsics:
             return I.intrinsics[key]
+        if getattr(o, "fallback", None):
+            # a repository module reached through a generated alias: interpret the real function from /repo
+            return I.global_lookup(I.module(o.fallback), name)
         raise Unsupported(f"external {key}")
     if isinstance(o, ExcVal):
         if name == "args":
